@@ -5,6 +5,7 @@ package rjson
 import (
 	"math"
 	"runtime"
+	"runtime/debug"
 )
 
 // Native definitions of the harness intrinsics, used to replay a solver model
@@ -87,6 +88,9 @@ func vAllocs() int { return vAllocDelta }
 var vTotalAlloc0 uint64
 
 func vCostReset() {
+	// no collection while a cost is being measured: a collection empties sync.Pool (pooled child readers and their
+	// scratch buffers are then allocated again), which made the measured difference depend on GC timing under load
+	debug.SetGCPercent(-1)
 	runtime.ReadMemStats(&vMemStats)
 	vTotalAlloc0 = vMemStats.TotalAlloc
 }
